@@ -472,6 +472,9 @@ func c11Scenarios() []c11Scenario {
 		// byte-budgeted syncs whose LAST chunk is itself budget-limited (one transaction larger than the budget)
 		c11Scenario{"chunked-big-tx", cfgWith(func(c *scn.Config) { c.MaxSyncWALFrames = 2 }), f("W3 SW WN:3 SW W1 WN:2 SW LC:PASSIVE WN:4 SW CL")},
 		c11Scenario{"retention-off", cfgWith(func(c *scn.Config) { c.RetentionEnabled = false }), f("W3 SW W1 SW CMP:1 RETL0:2 SNAP W1 SW SNAP RET9:1 CL")},
+		// a name that already exists on the replica is published again (a second forced snapshot at an unchanged
+		// position, as replicate -force-snapshot on an idle database): the rename replaces a directory entry
+		c11Scenario{"republish-same-name", base, f("W3 SW FSNAP FSNAP W1 SW FSNAP CMP:1 FSNAP FSNAP CL")},
 		c11Scenario{"nostore", cfgWith(func(c *scn.Config) { c.UseStore = false }), f("W3 SW W1 SW CMP:1 SNAP RET9:0 LC:TRUNCATE W1 SW CL")},
 	)
 	return out
@@ -488,7 +491,7 @@ func c11(args []string) int {
 	scs := c11Scenarios()
 	if ev.Tier() != "thorough" {
 		// quick: the scenarios that between them contain every publish/delete site
-		keep := map[string]bool{"sync+ckpt": true, "compact+retain": true, "restore+close": true, "behind-replica-fetch": true, "follower": true, "behind-replica-idle": true, "legacy-restore-snapshot-only": true, "legacy-restore-with-wal": true, "chunked": true, "chunked-big-tx": true}
+		keep := map[string]bool{"sync+ckpt": true, "compact+retain": true, "restore+close": true, "behind-replica-fetch": true, "follower": true, "behind-replica-idle": true, "legacy-restore-snapshot-only": true, "legacy-restore-with-wal": true, "chunked": true, "chunked-big-tx": true, "republish-same-name": true}
 		var q []c11Scenario
 		for _, s := range scs {
 			if keep[s.Name] {
@@ -507,11 +510,14 @@ func c11(args []string) int {
 	exhaustive := true
 	kinds := map[string]bool{}
 	faultRuns, faultNotReached, faultInconclusive, faultCut, faultSkippedSameClass := 0, 0, 0, 0, 0
+	// Pass 1: the fault-free trace of EVERY scenario is judged, whatever the budget (a few seconds each); pass 2, the
+	// flush-failure enumeration, then takes what is left of the budget, an even share per scenario.
+	type ffRun struct {
+		sc c11Scenario
+		r  c11Result
+	}
+	var ffs []ffRun
 	for _, sc := range scs {
-		if time.Now().After(deadline) {
-			exhaustive = false
-			break
-		}
 		r := c11Run(sc, tmp)
 		if r.Harness != nil {
 			fmt.Fprintln(os.Stderr, "HARNESS ERROR (no verdict):", sc.Name, r.Harness)
@@ -533,6 +539,12 @@ func c11(args []string) int {
 			rep.Report(&ev.Violation{Kind: p.Kind, Signature: p.Kind + "|" + sc.Name + "|" + reScnDir.ReplaceAllString(site, ""),
 				Detail: map[string]any{"scenario": sc, "problem": p.String()}})
 		}
+		ffs = append(ffs, ffRun{sc, r})
+	}
+	scsRun := len(ffs)
+	for fi, ff := range ffs {
+		sc, r := ff.sc, ff.r
+		scDeadline := time.Now().Add(time.Until(deadline) / time.Duration(len(ffs)-fi))
 		// Flush-failure enumeration: every flush of a litestream-owned file or directory seen in the fault-free run
 		// is made to fail (EIO, the call does not execute) in a run of its own; the operation in flight must not
 		// report success over an unflushed publish.
@@ -558,7 +570,7 @@ func c11(args []string) int {
 			flushes = sel
 		}
 		for _, fl := range flushes {
-			if time.Now().After(deadline) {
+			if time.Now().After(scDeadline) {
 				exhaustive = false
 				faultCut++
 				continue
@@ -599,7 +611,7 @@ func c11(args []string) int {
 		Coverage: map[string]any{
 			"evaluations": events + rules["R2"] + rules["R4"] + faultRuns, "distinct_nontrivial": len(kinds),
 			"rule":    "every rename onto a final name (LTX file, restore output, TXID sidecar) and every unlink of an LTX file in the recorded syscall traces of the scenarios is a checked event: R1 source fsynced after its last write before the rename; R2 directory fsynced before the operation reports success; R3 an unlinked LTX file is superseded by a durable file (uploaded copy, higher level covering its range, or snapshot); R4 no write ever targets a final name; distinct = (scenario, rule) pairs exercised",
-			"samples": samples, "exhaustive": exhaustive, "rename_unlink_events": events, "counted_syscalls": calls, "rule_checks": rules, "scenarios": len(scs),
+			"samples": samples, "exhaustive": exhaustive, "rename_unlink_events": events, "counted_syscalls": calls, "rule_checks": rules, "scenarios": scsRun,
 			"flush_failure_runs": faultRuns, "flush_failure_call_not_reached": faultNotReached, "flush_failure_inconclusive": faultInconclusive, "flush_failure_cut_by_budget": faultCut, "flush_failure_skipped_same_path_class_quick": faultSkippedSameClass,
 			"flush_failure_rule": "every fsync/fdatasync of a litestream-owned file or directory in the fault-free trace fails with EIO (without executing) in a run of its own; rules R1/R2 are evaluated up to the result of the operation in flight",
 		}}
